@@ -1107,6 +1107,32 @@ func JSONRequest(name string, qt, qc uint16, cd, do, sde bool) *dns.Msg {
 	return m
 }
 
+// DrawDoHPath draws a spelling of a DoH path (base is "/dns-query" or
+// "/resolve"): the canonical one, with a trailing slash, with a client-ID
+// segment, or one that path.Clean maps to the canonical path (the server
+// documents that it cleans the path before looking at its first segment).
+func DrawDoHPath(pick Chooser, label, base string) (p, class string) {
+	seg := strings.TrimPrefix(base, "/")
+	switch pick(label, 10) {
+	case 0, 1, 2:
+		return base, "doh-path-canonical"
+	case 3:
+		return base + "/", "doh-path-trailing-slash"
+	case 4:
+		return base + "/client1", "doh-path-client-id"
+	case 5:
+		return "//" + seg, "doh-path-noncanonical"
+	case 6:
+		return "/./" + seg, "doh-path-noncanonical"
+	case 7:
+		return "/x/../" + seg, "doh-path-noncanonical"
+	case 8:
+		return "//" + seg + "/client1", "doh-path-noncanonical"
+	default:
+		return "/./x/.././" + seg + "/", "doh-path-noncanonical"
+	}
+}
+
 // JSONQuery is one drawn JSON API request.
 type JSONQuery struct {
 	// Values are the URL parameters (without ct and without decoys).
